@@ -559,4 +559,28 @@ example :
     (request s t (some []) [] (strOf "n1/cubbyhole/foo") .read (strOf "k")).2.2 = [⟨.cubby 1 7, .get, strOf "foo"⟩] := by
   decide
 
+/-! ### the seal material of a namespace stays in the namespace -/
+
+/-- **A namespace's root-key rotation writes only below the namespace's own storage prefix**: for every prefix `pre`,
+every physical key the rotation puts or deletes starts with `pre` (stream `confine`, op `nsrotate`, compares the keys a
+real rotation writes with `rotationWrites`). -/
+theorem rotation_writes_confined (pre : String) : ∀ w ∈ rotationWrites pre, pre.toList <+: w.2.toList := by
+  intro w hw
+  unfold rotationWrites at hw
+  rcases List.mem_append.mp hw with h | h
+  · obtain ⟨r, _, rfl⟩ := List.mem_map.mp h
+    simp [String.toList_append]
+  · split at h
+    · rename_i hp
+      have : pre = "" := by simpa using hp
+      subst this
+      simp
+    · cases h
+
+/-- the two writes that escaped before the repairs (findings F49 and F50): with a namespace prefix they land in the ROOT
+namespace's key space -/
+theorem rotation_writes_unprefixed_cex :
+    ∃ w ∈ rotationWritesUnprefixed "namespaces/u/", ¬ ("namespaces/u/".toList <+: w.2.toList) := by
+  refine ⟨("put", "core/shamir-kek"), by decide, by decide⟩
+
 end C12
